@@ -20,6 +20,9 @@ EXPLANATION = (
     "R3 total order on reads -- ReadSet's comparator (clang AST) ends in name and source_id tie-breakers, compares no pointers; ReadSet::add rejects duplicates of that pair; get_positions sorts. "
     "R4 -- no pointer-keyed container or pointer comparison in the C++ sources setup.py builds (address order is the only run-to-run variable on the C++ side)."
 )
+EXPLANATION += (
+    " " + 'R8: no loop reads the variable that an earlier loop over the same collection left behind (it holds the last element of an iteration whose order, for the per-family sample lists, comes from a set).'
+)
 NOT_DECIDED = "Floating-point reproducibility, htslib's compression threads, and whether a reviewed order-insensitive sink is insensitive for every input (those instances are listed with their reason)."
 ASSUMPTIONS = [
     "hash(int) and hash of tuples of ints do not depend on PYTHONHASHSEED; str / object hashes do",
@@ -463,6 +466,67 @@ def r6(ctx):
     ctx.ob(fi.qual, "learn-output-truncated-before-append", ok, fi.loc(truncs[0]) if truncs else fi.loc(), "src/caller.cpp appends to the output file; run_learn truncates it once before the first append, so a repeated run gives the same file" if ok else "src/caller.cpp opens the output with ios::app but run_learn does not truncate it first: running the command twice with the same -o doubles the file")
 
 
+def _stale_loop_variable_reads(fnode):
+    """[(earlier loop, later loop, Name node)]: a later loop over the SAME collection (same iterable expression, not nested in
+    the earlier one) reads the loop variable of the earlier loop, and nothing rebinds that name in between.  What is read is
+    whichever element the earlier loop ended on."""
+    order = util.preorder_index(fnode)
+    loops = [x for x in walk_function(fnode) if isinstance(x, ast.For)]
+    comp_bound = set()
+    for x in ast.walk(fnode):
+        if isinstance(x, (ast.ListComp, ast.SetComp, ast.DictComp, ast.GeneratorExp)):
+            for g in x.generators:
+                comp_bound |= {id(t) for t in ast.walk(g.target) if isinstance(t, ast.Name)}
+    stores = {}
+    for x in walk_function(fnode):
+        if isinstance(x, ast.Name) and isinstance(x.ctx, ast.Store) and id(x) not in comp_bound:
+            stores.setdefault(x.id, []).append(x)
+
+    def bound_by_enclosing_comprehension(x):
+        p_ = getattr(x, "parent", None)
+        while p_ is not None and p_ is not fnode:
+            if isinstance(p_, (ast.ListComp, ast.SetComp, ast.DictComp, ast.GeneratorExp)) and any(isinstance(t, ast.Name) and t.id == x.id for g in p_.generators for t in ast.walk(g.target)):
+                return True
+            if isinstance(p_, ast.Lambda) and any(a.arg == x.id for a in p_.args.args):
+                return True
+            p_ = getattr(p_, "parent", None)
+        return False
+
+    out = []
+    for L1 in loops:
+        in1 = {id(x) for x in ast.walk(L1)}
+        for L2 in loops:
+            if L2 is L1 or id(L2) in in1 or order[id(L2)] < order[id(L1)] or u(L2.iter) != u(L1.iter) or any(y is L1 for y in ast.walk(L2)):
+                continue
+            for t in [t for t in ast.walk(L1.target) if isinstance(t, ast.Name)]:
+                for x in ast.walk(L2):
+                    if isinstance(x, ast.Name) and x.id == t.id and isinstance(x.ctx, ast.Load) and not bound_by_enclosing_comprehension(x):
+                        prev = [s_ for s_ in stores.get(t.id, []) if order.get(id(s_), 1 << 30) < order.get(id(x), -1)]
+                        if prev and max(prev, key=lambda s_: order[id(s_)]) is t:
+                            out.append((L1, L2, x))
+    return out
+
+
+def r8(ctx):
+    """A loop over a collection must not read the variable an EARLIER loop over the same collection left behind: it holds the
+    last element of that iteration -- for the per-family lists of the pedigree commands, whose order comes from a set of
+    sample names, the element the hash order happened to end on -- and every iteration of the later loop uses it."""
+    from sa.model import set_parents
+
+    # the detector must see the construct it is looking for (zero instances are expected in the package)
+    probe = ast.parse("def f(family, t):\n    for sample in family:\n        t.add(sample)\n    for s in family:\n        g = t.genotypes_of(sample)\n        h = [sample for sample in g]\n").body[0]
+    set_parents(probe)
+    ctx.require(len(_stale_loop_variable_reads(probe)) == 1, "the stale-loop-variable detector no longer recognises its own example")
+    n = 0
+    for q, fi in sorted(ctx.prog.functions.items()):
+        if fi.module.kind not in ("py", "pyx") or not q.startswith("whatshap."):
+            continue
+        n += 1
+        for L1, L2, x in _stale_loop_variable_reads(fi.node):
+            ctx.ob(fi.qual, "loop-reads-the-variable-of-an-earlier-loop:%s" % x.id, False, fi.loc(x), "the loop over `%s` at line %s reads `%s`, the variable of the earlier loop over the same collection (line %s): every iteration uses the element that loop ended on, which for a collection ordered by a set of names depends on the hash seed" % (u(L2.iter)[:40], L2.lineno, x.id, L1.lineno))
+    ctx.ob("whatshap", "no-loop-reads-an-earlier-loops-variable", True, "whatshap/", "%d functions scanned: sibling loops over one collection each use their own loop variable" % n)
+
+
 RULES = [
     ("C16.R1", "order-taint: hash-ordered iteration must not reach an order-sensitive use", r1),
     ("C16.R2", "polyphase pool results aggregated in block order", r2),
@@ -471,7 +535,8 @@ RULES = [
     ("C16.R5", "shared configuration objects are not mutated per sample/block", r5),
     ("C16.R6", "append-mode outputs are truncated first (repetition)", r6),
     ("C16.R7", "edited per-sample copies of the variant table are deep copies", r7),
+    ("C16.R8", "sibling loops over one collection do not read each other's loop variable", r8),
 ]
 # instance floors: about 60% of the instances confirmed by hand on the reference tree -- a rule that suddenly matches far fewer
 # sites fails the run (exit 2); a clean-up that merges two sites into one does not
-FLOORS = {"C16.R1": 6, "C16.R2": 3, "C16.R3": 3, "C16.R4": 1, "C16.R5": 1, "C16.R6": 1, "C16.R7": 1}
+FLOORS = {"C16.R1": 6, "C16.R2": 3, "C16.R3": 3, "C16.R4": 1, "C16.R5": 1, "C16.R6": 1, "C16.R7": 1, "C16.R8": 1}
